@@ -20,6 +20,8 @@ const batchPkg = "oxia/internal/batch"
 func checkC20(c *chk.Ctx) {
 	h := newH(c)
 	c.Decided = []string{
+		"R20k the result channel of every single-result operation has room for its result (an abandoned call cannot block the shard's batcher)",
+		"R20j writes already sent on a broken stream are failed with a non-retriable error",
 		"R20i a batch that accepted its calls is sent: Complete fails the queued calls only after the request was executed and failed (whatever CanAdd admitted must not be refused afterwards)",
 		"R20a positional mapping: every callback is invoked with response.<F>[i] where i is the index of its own call in the slice that toProto serialises into request.<F>",
 		"R20b a non-empty batch is answered through exactly one of Fail / handle; both walk every call slice that toProto serialises and invoke each element's callback on every iteration; the batcher adds every received call to a batch before receiving the next",
@@ -37,6 +39,8 @@ func checkC20(c *chk.Ctx) {
 	ruleR20run(h)
 	ruleR20timer(h)
 	ruleR20i(h)
+	ruleSentWritesFailNonRetriable(h, "R20j")
+	ruleSingleResultChannelsBuffered(h, "R20k")
 	ruleR20c(h)
 	ruleR20e(h)
 	ruleR20f(h)
@@ -688,9 +692,9 @@ func b2i(b bool) int {
 	return 0
 }
 
-func ruleR20e(h *H) {
-	const rule = "R20e"
-	h.Rule(rule, "K2/K3", "write stream wrapper: the append to the pending list and the stream Send are in one critical section of the wrapper's mutex; responses complete the head of the list; closing the stream fails every pending future", 3)
+// writeStreamWrapperType finds the struct of oxia/internal holding a write-stream client
+// and a slice of futures (the pending list); it returns the type and the field name.
+func writeStreamWrapperType(h *H) (string, string) {
 	const pkg = "oxia/internal"
 	// the wrapper type: a struct of oxia/internal with a write-stream client and a slice of futures
 	wt, pf := "", ""
@@ -720,6 +724,14 @@ func ruleR20e(h *H) {
 			}
 		}
 	}
+	return wt, pf
+}
+
+func ruleR20e(h *H) {
+	const rule = "R20e"
+	h.Rule(rule, "K2/K3", "write stream wrapper: the append to the pending list and the stream Send are in one critical section of the wrapper's mutex; responses complete the head of the list; closing the stream fails every pending future", 3)
+	const pkg = "oxia/internal"
+	wt, pf := writeStreamWrapperType(h)
 	if wt == "" {
 		h.Anchor(rule, "the write-stream wrapper type (stream client + pending futures)")
 		return
